@@ -10,7 +10,7 @@ TV : tau2_gibbs_kernel on DistRegBuilder models (full-rank and rank-deficient pe
      ratios over a grid of tau2 values, and the draw must be scale / Gamma(shape) for the
      same key (replay), plus the scale law; finite_discrete_gibbs_kernel (FiniteDiscrete
      and Bernoulli priors, downstream likelihoods directly and through a named deterministic
-     variable, explicit and inferred outcome sets): 64 draws must equal the categorical
+     variable, explicit and inferred outcome sets, a user-supplied tempered log-prob node, an integer-typed current value with non-integer outcomes): 64 draws must equal the categorical
      replay on the model's log-probabilities at each outcome.  If a replay does not match,
      a distribution-free guard (KS / chi-square over fresh keys, p < 1e-9) must also reject
      before a violation is reported.
@@ -40,7 +40,10 @@ def run(chk: Check):
     for d, order in cfgs:
         traces.append({"hdr": {"kind": "tau2", "d": d, "order": order, "nontrivial": order > 0},
                        "ev": G.tau2_events(rng, d, order, nkeys=3 if chk.quick else 8)})
-    for kind in ("prior_only", "bernoulli_direct", "finite_via_named_var", "bernoulli_two_children"):
+    traces.append({"hdr": {"kind": "tau2", "d": 3, "order": 1, "nontrivial": True, "int_current": True},
+                   "ev": G.tau2_events(rng, 3, 1, nkeys=2 if chk.quick else 6, int_current=True)})
+    for kind in ("prior_only", "bernoulli_direct", "finite_via_named_var", "bernoulli_two_children", "bernoulli_tempered",
+                 "finite_int_current"):
         traces.append({"hdr": {"kind": kind, "nontrivial": kind != "prior_only"},
                        "ev": G.discrete_events(rng, kind, nkeys=64 if chk.quick else 256)})
     chk.tv("Trace_Gibbs.tla", traces, tag="gibbs", nontrivial=lambda t: t["hdr"]["nontrivial"],
